@@ -11,6 +11,12 @@ for pid in ids:
     c = src["checks"].get(pid)
     if not c or not c.get("claimed", False):
         continue
+    # a check may keep its own up-to-date wording next to its source (written by whoever maintains it)
+    for d in ("harness/checks", "harness-ft"):
+        ov = os.path.join(root, d, pid.lower(), "manifest_text.json")
+        if os.path.exists(ov):
+            o = json.load(open(ov))
+            c = dict(c, **{k: o[k] for k in ("text", "note", "technique") if k in o})
     built.append(pid)
     checks.append({
         "property_id": pid,
